@@ -17,11 +17,14 @@ import mitm
 import vcheck
 from checks import common
 
-ALPHA = ["1", "0", ".", " ", "\t", "\n", ";", "|", "$", "(", "`", "'", "a"]
+ALPHA = ["1", "0", ".", " ", "\t", "\n", ";", "|", "$", "(", "`", "'", "a", ":", "f"]
 CURATED = ["10.0.0.2 ;id", "10.0.0.2;id", "10.0.0.2 `id`", "10.0.0.2 $(id)", "10.0.0.2\nid", "10.0.0.2 | id", "1.2.3.4 && reboot",
            "10.0.0.2\tx", "010.0.0.2", "10.0.0.256", "10.0.0", "1.2.3.4.5", "0x0a.0.0.2", "10.0.0.2 ", " 10.0.0.2",
            "10.0.0.2'", "\"10.0.0.2\"", "10.0.0.2 netmask 0.0.0.0 up; id #", "2130706433", "10.0.0.2 -alias", "a", "",
-           "10.0.0.2 " + "A" * 50, "1.1.1.1 >/tmp/x"]
+           "10.0.0.2 " + "A" * 50, "1.1.1.1 >/tmp/x",
+           # other address syntaxes a lenient parser accepts (IPv6 literals, IPv4-mapped, scoped, bracketed, CIDR, hex / octal)
+           "fd00:dead:beef::2", "::ffff:10.0.0.2", "::1", "::", "fe80::1%dns0", "[::1]", "2001:db8::1", "::10.0.0.2", "1::",
+           "10.0.0.2/24", "10.0.0.2%1", "0xa000002", "012.0.0.2", "10.2", "10.0.2", "1.2.3.4:53", "١٠.٠.٠.٢".encode("utf-8").decode("latin-1")]
 NUMS = ["1130", "27", "0", "-1", "33", "99999999999", "1130;id", "27 ;id", "1e3", "0x10", " 27", "27 ", "4294967295",
         "2147483648", "+27", "27\n", "$(id)", "`id`"]
 
